@@ -69,6 +69,15 @@ ReqMiscApi(o) == {
   <<"API.as_remote_iff_remote", o.remoteIsRemote /\ o.localIsNotRemote>>,
   <<"API.signature_algorithm_debug_names", \A i \in DOMAIN o.algDebug : o.algDebug[i].debug = AlgDebugName(o.algDebug[i].alg)>> }
 
+(* the two places that need a digest implementation are errors, not panics, in a build without one, and work otherwise; *)
+(* an imported CA without subject key identifier gets the default derivation (SHA-256) for re-issuing                    *)
+ReqNeedsDigest(be, o) ==
+  IF be = "none"
+  THEN { <<"API.auto_serial_without_crypto_is_error", o.autoSerial.out = "Err" /\ o.autoSerial.detail = "MissingSerialNumber">>,
+         <<"API.import_without_ski_without_crypto_is_error", o.importWithoutSki.out \in {"Err", "Skip"}>> }
+  ELSE { <<"API.auto_serial_with_crypto", o.autoSerial.out = "Ok">>,
+         <<"API.import_without_ski_defaults_to_sha256", o.importWithoutSki.out = "Skip" \/ (o.importWithoutSki.out = "Ok" /\ o.importWithoutSki.detail = "sha256")>> }
+
 (* conversions into the pki-types wrappers return the same bytes as the accessors *)
 ReqConversions(o) == { <<"API.into_der_types_eq_accessors", o.certEq /\ o.csrEq /\ o.crlEq>> }
 =============================================================================
